@@ -193,6 +193,17 @@ class Weird:
     def __hash__(self):
         return 7
 
+rate = 2
+bonus_total = 0
+
+def priced(items):
+    global bonus_total
+    rate = 10                      # a local that shadows the module global
+    bonus = 3
+    total = sum(i + bonus for i in items) * rate
+    bonus_total += bonus
+    return total
+
 def fib(n):
     w = Weird(n)
     if n < 2:
@@ -220,6 +231,7 @@ def main():
     print("start")
     out.append(fib(6))
     out.append(sum(gen(5)))
+    out.append((priced([1, 2, 3]), rate))
     ts = [threading.Thread(target=worker, args=(out, k)) for k in range(4)]
     for t in ts:
         t.start()
@@ -259,6 +271,9 @@ def differential(ctx, n):
             except BaseException as e:
                 res["raised"] = repr(e)
             finally:
+                # the host's final data: its module namespace (functions and classes by name, values by repr)
+                res["globals"] = {k: (repr(v) if not callable(v) and not isinstance(v, type(sys)) else "<callable/module>")
+                                  for k, v in glb.items() if k != "__builtins__"}
                 res["trace_after"] = sys.gettrace()
                 sys.settrace(None)
                 threading.settrace(None)
@@ -292,7 +307,8 @@ def differential(ctx, n):
                 args["method_name"] = rng.choice(["fib", "gen", "risky", "worker", "nope"])
             if rng.random() < 0.15:
                 args["stage"] = rng.choice(["method_start", "method_capture", "line_capture", "line_end", "what"])
-            watches = rng.sample(["n", "w", "w.x", "len(w)", "data", "k", "1/0", "str(w)"], rng.choice([0, 1, 3]))
+            watches = rng.sample(["n", "w", "w.x", "len(w)", "data", "k", "1/0", "str(w)", "sum(i + bonus for i in items)",
+                                  "[rate * i for i in items]", "(lambda: bonus)()", "undefined_thing"], rng.choice([0, 1, 3, 5]))
             metrics = [MetricDefinition("m", rng.choice(["COUNTER", "GAUGE", "odd"]), [], rng.choice([None, "n", "w", "1/0"]))] if rng.random() < 0.3 else []
             line = rng.choice(code_lines)
             try:
@@ -323,6 +339,11 @@ def differential(ctx, n):
         if got.get("value") != ref.get("value") or got.get("raised") != ref.get("raised"):
             ctx.fail("host program result with the agent: %r / %r, without: %r / %r" % (
                 got.get("value"), got.get("raised"), ref.get("value"), ref.get("raised")), j, tag="host-result")
+        if got.get("globals") != ref.get("globals"):
+            a, b = got.get("globals") or {}, ref.get("globals") or {}
+            diff = {k: (a.get(k), b.get(k)) for k in set(a) | set(b) if a.get(k) != b.get(k)}
+            ctx.fail("the host module's final data differs with the agent attached (name: with agent, without): %r" % (diff,), j,
+                     tag="host-data")
         if got_out != ref_out:
             ctx.fail("host program output differs with the agent attached: %r vs %r" % (got_out, ref_out), j, tag="host-output")
         if got.get("trace_after") is not tracer:
